@@ -134,6 +134,8 @@ pub struct NetInner {
     /// datagrams to these destinations are additionally copied to a capture buffer
     capture: Vec<(SocketAddr, SocketAddr, Vec<u8>)>,
     capture_on: bool,
+    /// total partition switched on by a scenario at run time: every non-injected datagram is dropped
+    blackhole: bool,
 }
 
 pub struct SimNet {
@@ -243,9 +245,14 @@ impl SimNet {
                 rewriter: None,
                 capture: Vec::new(),
                 capture_on: false,
+                blackhole: false,
             }),
             sh,
         })
+    }
+
+    pub fn set_blackhole(&self, on: bool) {
+        self.inner.lock().unwrap().blackhole = on;
     }
 
     pub fn set_rewriter(&self, r: Option<Box<dyn Rewriter>>) {
@@ -330,7 +337,11 @@ impl SimNet {
         }
         let faults_on = !injected && el < n.heal_at;
         let mut action: Option<Action> = None;
-        if faults_on {
+        if n.blackhole && !injected {
+            action = Some(Action::Drop);
+            sh.stat("fault.blackhole_drop", 1);
+        }
+        if faults_on && action.is_none() {
             let n_ref: &mut NetInner = &mut n;
             let mut hit: Option<usize> = None;
             'outer: for (ri, r) in n_ref.rules.iter().enumerate() {
